@@ -17,6 +17,7 @@
 import PyTough.Model.Refine
 import PyTough.Proofs.Refine
 import PyTough.Proofs.RefineLayers
+import PyTough.Proofs.RefineTriangle
 namespace Props.C11
 open Model.Geo Model.Refine Gen.RefineTables Proofs.Refine
 
@@ -178,6 +179,21 @@ theorem split_column_conserves_area (ρ : Val) (i0 : Nat) (hi : i0 < 4) :
   have := area_additive_over_chain ρ 4 [] _ (split_column_boundary_identity i0 (List.mem_range.mpr hi))
   simp only [List.map_cons, List.map_nil, sumRat_cons, sumRat_nil] at this
   rw [← this]; grind
+
+/-! ### the sub-columns of a refined triangle are positive fractions of it -/
+
+/-- For a TRIANGULAR parent and every non-empty set of refined sides: each sub-column `refine` creates is a fixed
+    positive fraction `c` of the parent (1/2, 1/4 or 3/4), for ALL corner coordinates — so every sub-column of a
+    counter-clockwise triangle is counter-clockwise with positive area, none overlaps another (their areas add up
+    to the parent's, `refine_column_conserves_area`).  Certificate: barycentric coordinates of the vertices, checked
+    over the whole generated table by `decide`.  (For quadrilateral parents the fractions depend on the shape and on
+    the centre node; positivity there needs convexity and is NOT proved — oracle only.) -/
+theorem triangle_subcolumns_positive (sides : List Nat) (hs : sides.Sublist (List.range 3)) (hne : sides ≠ [])
+    (subs : List Poly) (h : subdivision 3 sides = some subs) (p : Poly) (hp : p ∈ subs) :
+    ∃ c : Rat, 0 < c ∧ ∀ ρ : Val, area2 ρ p = c * area2 ρ (parentPoly 3) :=
+  triangle_subcolumns_fraction sides hs hne subs h p hp
+
+example : triFraction [.corner 0, .mid 0 1, .mid 1 2, .corner 2] = some (3/4) := by decide +kernel
 
 /-! ### `refine_layers` -/
 
